@@ -66,6 +66,7 @@ func c05ParseGo(fset *token.FileSet, repo string, rel ...string) (*ast.File, err
 	if err != nil {
 		return nil, err
 	}
+	c05InlineHelpers(f) // private helpers called from a translated function are put back (c05_inline.go)
 	c05NormalizeFile(f) // behaviour-preserving rewrites (c05_norm.go)
 	return f, nil
 }
